@@ -1071,7 +1071,10 @@ impl CollectUnicodes for Cmap4<'_> {
                 }
             } else {
                 for cp in start..=end {
-                    let index = range_offset / 2 + (cp - start) + i as u32 - seg_count as u32;
+                    // As in HarfBuzz this is unsigned arithmetic: an offset that
+                    // points before the glyph id array wraps to an out of range index.
+                    let index =
+                        (range_offset / 2 + (cp - start) + i as u32).wrapping_sub(seg_count as u32);
                     if index as usize >= glyph_id_array.len() {
                         out.remove_range(cp..=end);
                         break;
